@@ -88,6 +88,25 @@ fn run(case: &str) -> String {
     if res.len() == 1 && res[0] == arg {
         return "P".to_string(); // passed through: not taken as an archive / extraction failed
     }
+    // a second request for the same archive re-uses its temporary directory
+    let res2: Option<Vec<String>> = parts.get(6).filter(|p| !p.is_empty()).map(|p2| {
+        let pattern2 = String::from_utf8(unhex(p2)).unwrap_or_default();
+        let arg2 = format!("{}{}{}", zpath.to_string_lossy(), if bang { "!/" } else { "/" }, pattern2);
+        let _g = LOCK.lock().unwrap_or_else(|e| e.into_inner());
+        let old = std::env::var_os("TMPDIR");
+        std::env::set_var("TMPDIR", &tmp);
+        let log = slog::Logger::root(slog::Discard, slog::o!());
+        let r = adlt::utils::unzip::extract_archives(arg2.clone(), &mut temp_dirs, &Arc::new(AtomicBool::new(false)), &log);
+        match old {
+            Some(v) => std::env::set_var("TMPDIR", v),
+            None => std::env::remove_var("TMPDIR"),
+        }
+        if r.len() == 1 && r[0] == arg2 {
+            vec!["?passthrough".to_string()]
+        } else {
+            r
+        }
+    });
     let tdir: Option<std::path::PathBuf> = temp_dirs.first().map(|(_, d): &(String, tempfile::TempDir)| d.path().to_path_buf());
     // reported files: relative to the temporary directory of the archive, must lie inside it
     let mut reported = vec![];
@@ -122,7 +141,27 @@ fn run(case: &str) -> String {
     fs.sort();
     let mut rp: Vec<String> = reported.iter().map(|p| hex(p.as_bytes())).collect();
     rp.sort();
-    format!("R:{} F:{} X:{}", rp.join("+"), fs.join("+"), escaped + outside)
+    let second = match &res2 {
+        None => String::new(),
+        Some(r2) => {
+            let mut v: Vec<String> = r2
+                .iter()
+                .map(|r| {
+                    let p = std::path::Path::new(r);
+                    match (&tdir, p.canonicalize()) {
+                        (Some(t), Ok(c)) => match c.strip_prefix(t.canonicalize().unwrap_or(t.clone())) {
+                            Ok(rel) => hex(rel.to_string_lossy().as_bytes()),
+                            Err(_) => "OUTSIDE".to_string(),
+                        },
+                        _ => format!("?{}", hex(r.as_bytes())),
+                    }
+                })
+                .collect();
+            v.sort();
+            format!(" S:{}", v.join("+"))
+        }
+    };
+    format!("R:{}{} F:{} X:{}", rp.join("+"), second, fs.join("+"), escaped + outside)
 }
 
 const NAMES: [&str; 23] = [
@@ -170,6 +209,11 @@ fn gen(rng: &mut Rng, tier: u32) -> String {
     if pattern.is_empty() {
         pats = vec!["**/*".to_string()];
     }
+    // in a third of the cases the same archive is asked for a second time (same temporary directory)
+    let pattern2 = if rng.chance(3) { rng.pick(&["**/*", "*.dlt", "**/*.dlt", "dir/*", "a.dlt", "a.*", "dir/b.dlt", "*"]).to_string() } else { String::new() };
+    if !pattern2.is_empty() && !pats.contains(&pattern2) {
+        pats.push(pattern2.clone());
+    }
     for p in pats {
         match glob::Pattern::new(&p) {
             Ok(g) => {
@@ -189,13 +233,14 @@ fn gen(rng: &mut Rng, tier: u32) -> String {
         }
     }
     format!(
-        "{} | {} | {} | {} | {} | {}",
+        "{} | {} | {} | {} | {} | {} | {}",
         hex(pattern.as_bytes()),
         if bang { "!" } else { "/" },
         ms.iter().map(|m| format!("{},{},{}", hex(m.name.as_bytes()), if m.dir { "d" } else { "f" }, hex(&m.data))).collect::<Vec<_>>().join(";"),
         info.join(";"),
         listing.iter().map(|l| hex(l.as_bytes())).collect::<Vec<_>>().join(";"),
-        tbl.join(" ")
+        tbl.join(" "),
+        hex(pattern2.as_bytes())
     )
 }
 
